@@ -6,7 +6,7 @@ import os
 from vlib import core, runner
 from .base import Check
 
-EVENT_OPS = ("B ", "S ", "K ", "U ", "T ", "X ", "N ", "D ", "F ", "R ", "E ")
+EVENT_OPS = ("B ", "S ", "K ", "U ", "T ", "X ", "N ", "D ", "F ", "R ", "E ", "A ", "G ")
 
 # Harmless rewrites of the anchored code on which the full flow of this check was run and stays silent (built as mutated object
 # files in scratch and linked into a scratch harness; the patches are kept as documentation in corpus/C10/negative_controls/).
@@ -29,13 +29,16 @@ NEGATIVE_CONTROLS = [
     "!m_Clients.empty() (the correct version of seeded change C10-7)",
     "nc12 notification.ti: stashed_notifications loses the `state` flag (which internal bookkeeping survives a restart is an oracle input)",
     "nc13 configobject.ti: pause_called / resume_called get the `state` flag (restoring a flag is not a Pause()/Resume() call)",
+    "nc14 checkable-notification.cpp FireSuppressedNotifications: the four early returns folded into one condition with the pending bits read "
+    "first; checkable.cpp AcknowledgeProblem: `paused` read into a local, operands swapped; configobject.cpp Activate: run-everywhere test "
+    "spelled `!= HARunOnce` through a local (runtime-created objects, checkable-originated notifications)",
 ]
 # Compared between model and implementation: paused, #Pause(), #Resume(), #command executions per observed object, Utility::SDBM.
 # Deliberately NOT compared: number of OnPausedChanged notifications, length of the notification stash, log text, timer periods
 # (which timer ran is an oracle input), iteration orders, the authority of Endpoint/Zone/ApiListener/started components.
 # Known dependency: the harness reaches eight private members by name (ApiListener::m_UpdatedObjectAuthority, m_RelayQueue,
 # m_SyncQueue, m_AuthorityTimer; NotificationComponent::m_NotificationTimer; CheckerComponent::m_IdleCheckables,
-# m_PendingCheckables, m_Mutex): renaming one of them breaks the harness build, reported as a broken tie, never as a failing input.
+# m_PendingCheckables, m_Mutex) and one private static function (Checkable::FireSuppressedNotificationsTimer): renaming one of them breaks the harness build, reported as a broken tie, never as a failing input.
 
 
 class C10(Check):
@@ -46,7 +49,9 @@ class C10(Check):
                          "overlapping_runs_are_one", "paused_node_is_silent", "cold_start_notification_waits",
                          "exactly_one_does_the_work", "connected_while_a_connection_is_left",
                          "closing_one_of_several_changes_nothing", "half_is_endpoint_set", "restart_has_no_authority",
-                         "unseen_members_do_not_matter", "one_round_settles", "alone_after_grace_is_active"]
+                         "unseen_members_do_not_matter", "one_round_settles", "alone_after_grace_is_active",
+                         "runtime_created_object_settles", "created_object_one_owner_general", "pending_notification_requested_once",
+                         "node_create_fire_pointwise"]
     technique = ("Lean 4 proof (order/sort normal form, decision logic stated outright, invariant by induction over events of the "
                  "two-member system) over a hand-written model of Utility::SDBM, ApiListener::UpdateObjectAuthority, "
                  "ConfigObject::SetAuthority, the client set of Endpoint (AddClient/RemoveClient/GetConnected) and the restart of a "
@@ -65,23 +70,32 @@ class C10(Check):
                   "an endpoint is connected exactly while one of its connections is left, over any sequence of attach/remove events with "
                   "arbitrary connection numbers, and closing one of several connections changes no later decision; a restarted process — "
                   "with new objects only or through the state file written while it was active — has no authority for a run-once object "
-                  "until an authority run decides; "
+                  "until an authority run decides; an object created at runtime on both members (whatever ran before: no memory of earlier "
+                  "authority runs enters a decision) is active on neither until the next run on each and after it on exactly one, with one "
+                  "Resume() and no Pause() in total (also for any number of members that all see each other: one owner); a notification that a checkable has to request itself (suppressed-notifications timer, "
+                  "acknowledgement, hard state change of a processed check result) is requested by no member that is paused for the checkable "
+                  "and by exactly one of two settled members; "
                   "and for every layout, object and finite sequence of (re)start (plain / through the state file) / connection attach / "
                   "connection remove / authority-run / notification-request / "
-                  "notification-timer / due-check events on both members the model's trace satisfies the executable specification. The model is tied to the code by running two real ApiListener nodes "
+                  "notification-timer / due-check / runtime-creation / checkable-originated-notification events on both members the model's trace satisfies the executable specification. The model is tied to the code by running two real ApiListener nodes "
                   "(real Endpoint/Zone objects with several real JsonRpcConnection objects per endpoint attached and removed through "
                   "Endpoint::AddClient/RemoveClient, restarts through the real ConfigObject::DumpObjects/RestoreObjects of a state file "
                   "written while the objects were active, real UpdateObjectAuthority directly and through the authority timer "
                   "registered by ApiListener::Start, real SetAuthority/Pause/Resume on Host, Service, Notification, Downtime, Comment, "
                   "CheckerComponent, NotificationComponent objects; a real started NotificationComponent and "
                   "CheckerComponent per node with recording notification/check commands; two real threads blocked on an object's lock for "
-                  "overlapping authority runs) on generated scenarios, diffing paused, the Pause()/Resume()/SetPaused counts, the command "
+                  "overlapping authority runs; objects deleted and created anew at runtime the way ConfigItem::ActivateItems(runtimeCreated=true) "
+                  "activates them for ConfigObjectUtility::CreateObject, followed by the authority run CreateObject issues for every type but "
+                  "Comment/Downtime and by the authority timer; the real Checkable::FireSuppressedNotificationsTimer with a suppressed "
+                  "notification pending, Checkable::AcknowledgeProblem and Checkable::ProcessCheckResult with a hard state change, counting "
+                  "the OnNotificationsRequested signals they emit) on generated scenarios, diffing paused, the Pause()/Resume()/SetPaused counts, the command "
                   "executions and the stash length of every object after every event on both nodes, tying Utility::SDBM on the full "
                   "64-bit value, and evaluating the same specification predicate on the implementation's joined trace")
     level_note = ("Trusted: Lean kernel (+ propext, Classical.choice, Quot.sound), sampled correspondence (seeded scenarios + corpus), harness/driver. "
                   "Not modelled: notification filters/reminders and check scheduling arithmetic (C03/C04; the harness uses forced custom notifications and "
                   "explicitly due checks); TLS/connection establishment (a connection is an attached JsonRpcConnection object); thread interleavings "
-                  "other than two authority runs blocked on one object's lock. Oracle input: which Notification objects get their stash of "
+                  "other than two authority runs blocked on one object's lock. ConfigObjectUtility::CreateObject itself (config compilation, the _api package) is not driven: the harness performs its "
+                  "activation step and its authority run. Oracle input: which Notification objects get their stash of "
                   "undelivered notifications back from the state file (an object whose name is not valid UTF-8 does not: the file is JSON).")
     trusted_base = [
         "modelled, not verified: only Utility::SDBM, the endpoint selection / cold-start test / index computation of "
@@ -90,6 +104,10 @@ class C10(Check):
         "of the notification and check paths only the `paused` / UpdatedObjectAuthority guards are modelled (checkable-notification.cpp:66-110, "
         "notificationcomponent.cpp:138-206, checkercomponent.cpp:291-317); in a process without ApiListener the notification timer does not honour "
         "`paused` (notificationcomponent.cpp:159 tests the local endpoint): modelled as such, the spec clause applies to nodes with an endpoint",
+        "of the notifications a checkable requests itself only the `paused` guard is modelled (checkable-notification.cpp:134-138, checkable.cpp:165, "
+        "checkable-check.cpp:502): the harness arranges every other condition (pending suppressed Problem notification, hard state change, "
+        "no downtime / acknowledgement) and puts the checkable's attributes back afterwards; never for the case's first host (its "
+        "Notification objects would run) and check results only for Hosts (a Service's state change reschedules its host)",
         "each node process joins the ApiListener's relay/sync work queues before every observation; timers run only through Timer::VerifFireDue",
         "a restart is a rebuild of all objects of the case inside the node's process (the ApiListener singleton, the node's started "
         "components, commands and user live on); the crash is modelled by dumping the state file before the old objects are taken down",
@@ -236,7 +254,10 @@ class C10(Check):
                     "Endpoint/Zone/ApiListener objects and the node's started components are not observed); 4..34 (64) events: restarts (start time set or 0), symmetric and one-sided "
                     "connects/disconnects, UpdateObjectAuthority directly, through Timer::VerifFireDue and (a third of the cases) as two "
                     "overlapping runs blocked on a random object's lock, forced notification requests (also inside the cold-start window), "
-                    "notification timer runs, due checks of random checkables, checks held IN FLIGHT (blocking check command) while links and "
+                    "notification timer runs, objects created at runtime on one or both members (then the authority run of CreateObject, "
+                    "or only the authority timer for Comment/Downtime), notifications a checkable requests itself on one or both members "
+                    "(suppressed-notifications timer with one pending, acknowledgement, processed check result with a hard state change), "
+                    "due checks of random checkables, checks held IN FLIGHT (blocking check command) while links and "
                     "authority change, then released and made due twice more, the local Endpoint state that is not `connected` (syncing, "
                     "connecting, log positions, capabilities, version, last-message times) scrambled independently on each node, the same "
                     "work on both members after link changes, clocks "
@@ -249,7 +270,7 @@ class C10(Check):
 
     def replay(self, path, harness, driver):
         data = json.load(open(path))
-        lines = [l for l in data.get("case", []) if l[:2] in ("C ", "O ", "H ", "B ", "S ", "K ", "U ", "T ", "X ", "N ", "D ", "F ", "R ", "E ")]
+        lines = [l for l in data.get("case", []) if l[:2] in ("C ", "O ", "H ") + EVENT_OPS]
         f = self.work("replay.ops")
         with open(f, "w") as fh:
             fh.write("\n".join(runner.strip_obs(l) for l in lines) + "\n")
